@@ -193,6 +193,319 @@ def check_C01(tier, seed):
     return out
 
 
+# ======================================================================================= shared: rejection classes
+RECOVERY_TEXT = ('Entering recovery mode', 'Leaving recovery mode', 'Entering consume mode', 'Leaving consume mode',
+                 'Could not recover from error')
+
+
+def classify_reject(rj):
+    """What kind of disagreement between the real execution and the specification a rejected trace shows."""
+    why = rj['why']
+    t = rj.get('trace') or {}
+    k = why[0]
+    if k in ('table', 'verdict', 'tree', 'threw', 'partial-line'):
+        return k
+    if k == 'extra-events':
+        import traces as tl
+        evs = tl.convert(t, 1)['events'] if t else []
+        x = evs[why[1] - 1] if 0 < why[1] <= len(evs) else None
+        return 'extra:' + (x[0] if x else '?')
+    if k == 'event':
+        import traces as tl
+        exp = why[2]
+        evs = tl.convert(t, 1)['events'] if t else []
+        act = evs[why[1] - 1] if 0 < why[1] <= len(evs) else None
+        if act is not None and act[0] == exp[0] and len(act) == len(exp):
+            if exp[0] in ('rec', 'unexp', 'shift', 'reduce', 'goto', 'synerr', 'msg', 'recto', 'consume') and act[3:] == exp[3:]:
+                return 'position'
+            if exp[0] == 'call' and act[:4] == exp[:4]:
+                return 'position'
+        kinds = {exp[0]} | ({act[0]} if act else set())
+        if kinds & {'tval', 'call'}:
+            return 'functor'
+        if kinds & {'synerr', 'unexp'}:
+            return 'report'
+        texts = {e[3] for e in (exp, act) if e and e[0] == 'msg'}
+        if kinds & {'recto', 'consume'} or texts & set(RECOVERY_TEXT):
+            return 'recovery'
+        return 'step'
+    return k
+
+
+def trace_violation(e, rj, cls):
+    t = rj['trace']
+    import traces as tl
+    evs = tl.convert(t, 1)['events']
+    pos = rj.get('pos', rj['why'][1] if len(rj['why']) > 1 and isinstance(rj['why'][1], int) else 0)
+    return {
+        'summary': {'grammar': e.gid, 'rules': ['%s -> %s%s' % (l, ' '.join(r) or 'eps', ' [%d]' % p if p else '') for (l, r, p) in e.g.rules],
+                    'input': bytes(t['bytes']).decode('latin-1'), 'options': {'verbose': t['verbose'], 'ws': t['ws'], 'nl': t['nl'], 'stream': t['stream']},
+                    'class': cls, 'spec_expected': rj['why'], 'real_event': evs[pos - 1] if 0 < pos <= len(evs) else None, 'real_ok': t['ok']},
+        'kind': 'parser', 'gname': e.g.name, 'mode': e.mode, 'gid': e.gid,
+        'grammar': {'nts': e.g.nts, 'ts': e.g.ts, 'root': e.g.root, 'rules': e.g.rules, 'tprec': e.g.tprec, 'tassoc': e.g.tassoc},
+        'bytes': t['bytes'], 'ws': t['ws'], 'nl': t['nl'], 'verbose': t['verbose'], 'stream': t['stream'], 'buf': t['buf']}
+
+
+def judge_traces(out, entries, res, relevant, domain=None, per_grammar=2):
+    """Every rejected trace of a grammar in `domain` whose class is in `relevant` is a violation (the trace is the
+    executed witness); other classes are notes (they belong to another property's check)."""
+    per = collections.Counter()
+    other = collections.Counter()
+    for e in entries:
+        if domain is not None and e.gid not in domain:
+            continue
+        for rj in res.rejects.get(e.gid, []):
+            cls = classify_reject(rj)
+            if cls in relevant or cls.split(':')[0] in relevant:
+                per[e.g.name] += 1
+                if per[e.g.name] <= per_grammar:
+                    out.violations.append(trace_violation(e, rj, cls))
+            else:
+                other[cls] += 1
+                if os.environ.get('VERIF_DEBUG') and other[cls] <= 3:
+                    print('DEBUG other-class reject', cls, json.dumps(trace_violation(e, rj, cls)['summary'])[:700])
+    for c, n in other.items():
+        out.notes.append('%d rejected trace(s) of class %r (judged by another property)' % (n, c))
+    for gid, rc in res.crashed:
+        out.notes.append('harness process died while parsing grammar %s (exit %s)' % (gid, rc))
+
+
+def ws_inputs(g, L, extra, cap, rng=None):
+    alpha = [ord(t) for t in g.ts] + list(extra)
+    res = []
+    for s in gram.all_strings(alpha, L):
+        res.append(s)
+        if len(res) >= cap:
+            break
+    return res
+
+
+def std_assumptions():
+    return ['TLC + CommunityModules JSON reader', 'line classifier tools/traces.py (pattern only, one event per printed line)',
+            'bounded inputs (length bound and samples recorded under coverage.bounds)']
+
+
+# ======================================================================================= C02
+def check_C02(tier, seed):
+    out = Outcome()
+    rng = random.Random(seed)
+    L = 4 if tier == 'quick' else 6
+    entries = []
+    for g in catalogue('lr1') + catalogue('sr'):
+        entries += entries_for(g)
+    nrand = 30 if tier == 'quick' else 300
+    for i in range(nrand):
+        g = gengram.random_grammar(rng, 'r%d_%d' % (seed, i), n_nt=rng.choice([2, 3, 4]), n_t=rng.choice([2, 3]), max_rhs=3, p_empty=0.25)
+        try:
+            entries.append(pipeline.host_entry(g, 0))
+        except ValueError:
+            pass
+    for e in entries:
+        pipeline.add_jobs(e, all_inputs(e.g, L if len(e.g.ts) <= 3 else L - 1, 500 if tier == 'quick' else 3000))
+        for s in gengram.sentences(e.g, rng, 6 if tier == 'quick' else 30, max_len=40 if tier == 'quick' else 200):
+            pipeline.add_jobs(e, [s], tag='s', verbose=bool(rng.getrandbits(1)))
+    res, work = prun.run(entries, 'C02', design_L=L if tier == 'quick' else 5, do_product=True,
+                         tlc_procs=4 if tier == 'quick' else 8, tlc_workers=4 if tier == 'quick' else 2)
+    if res.design_errors:
+        raise Infra('the specification itself fails its oracles: ' + json.dumps(res.design_errors)[:3000])
+    # domain: no reduce/reduce conflict (behaviour undefined there); S/R grammars are in (the tree is then the resolved one)
+    domain = {e.gid for e in entries if e.gid in res.conflicts and res.conflicts[e.gid]['rr'] == 0}
+    judge_traces(out, entries, res, {'functor', 'tree', 'extra:call', 'extra:tval', 'threw'}, domain)
+    accepted = sum(1 for e in entries for t in e.traces if t['ok'])
+    out.coverage = base_coverage(res, {
+        'grammars': len(entries), 'grammars_in_domain': len(domain), 'accepted_inputs_validated': accepted,
+        'functor_calls_validated': res.event_kinds.get('call', 0), 'term_values_validated': res.event_kinds.get('tval', 0),
+        'bounds': {'L_all_inputs': L, 'long_sentences_max_tokens': 40 if tier == 'quick' else 200},
+        'samples': sample_traces([e for e in entries if e.gid in domain and any(t['ok'] for t in e.traces)], 3), 'exhaustive': False})
+    out.assumptions = std_assumptions() + ['functor observation: every rule carries a logging functor, every term a logging term functor (harness/rt.hpp)']
+    return out
+
+
+# ======================================================================================= C09
+def check_C09(tier, seed):
+    out = Outcome()
+    rng = random.Random(seed)
+    L = 4 if tier == 'quick' else 5
+    entries = []
+    for g in catalogue('lr1'):
+        entries += entries_for(g, hosts=(0,))
+    nrand = 30 if tier == 'quick' else 300
+    for i in range(nrand):
+        g = gengram.random_grammar(rng, 'r%d_%d' % (seed, i), n_nt=rng.choice([2, 3]), n_t=rng.choice([2, 3]), max_rhs=3)
+        try:
+            entries.append(pipeline.host_entry(g, 0))
+        except ValueError:
+            pass
+    unknown = [ord('?'), 32]
+    for e in entries:
+        ins = ws_inputs(e.g, L if len(e.g.ts) <= 3 else L - 1, unknown, 600 if tier == 'quick' else 4000)
+        pipeline.add_jobs(e, ins, verbose=False)
+        pipeline.add_jobs(e, ins[::3], verbose=True)
+        for s in gengram.sentences(e.g, rng, 4 if tier == 'quick' else 20, max_len=30):
+            if s:
+                m = list(s); m[rng.randrange(len(m))] = rng.choice([ord(c) for c in e.g.ts] + [ord('?')])
+                pipeline.add_jobs(e, [m], tag='m', verbose=False)
+                pipeline.add_jobs(e, [s[:rng.randrange(len(s))]], tag='p', verbose=False)
+    res, work = prun.run(entries, 'C09', design_L=L if tier == 'quick' else 5, design_ws=unknown, do_product=True,
+                         tlc_procs=4 if tier == 'quick' else 8, tlc_workers=4 if tier == 'quick' else 2)
+    if res.design_errors:
+        raise Infra('the specification itself fails its oracles: ' + json.dumps(res.design_errors)[:3000])
+    domain = {e.gid for e in entries if e.gid in res.conflicts and res.conflicts[e.gid]['n'] == 0}
+    judge_traces(out, entries, res, {'report', 'extra:synerr', 'extra:unexp', 'verdict', 'extra:unknown'}, domain)
+    # error detected at a different token than the canonical table would: executed through the witness traces already
+    failing = sum(1 for e in entries for t in e.traces if not t['ok'])
+    out.coverage = base_coverage(res, {
+        'grammars': len(entries), 'grammars_conflict_free_per_spec': len(domain), 'failing_inputs_validated': failing,
+        'messages_validated': res.event_kinds.get('line', 0),
+        'bounds': {'L_all_inputs_incl_unknown_byte_and_space': L},
+        'samples': sample_traces([e for e in entries if e.gid in domain and any(not t['ok'] for t in e.traces)], 3), 'exhaustive': False})
+    out.assumptions = std_assumptions() + ['valid-prefix oracle applies to grammars whose reachable nonterminals are all productive']
+    return out
+
+
+# ======================================================================================= C10
+def check_C10(tier, seed):
+    out = Outcome()
+    rng = random.Random(seed)
+    entries = []
+    names = ['left_rec', 'paren_list', 'expr_strat', 'two_lists', 'nullable_prefix', 'err_suite', 'err_stmt']
+    cat = {g.name: g for g in catalogue()}
+    for n in names:
+        entries += entries_for(cat[n], hosts=(0, 1))
+    # terms that are themselves whitespace / newline characters (multi-line lexemes, skip options decide)
+    entries += entries_for(gram.Grammar('nl_term', ['S'], ['a', '\n', '\t'], 'S', [('S', ['S', 'a'], 0), ('S', ['S', '\n'], 0), ('S', ['S', '\t'], 0), ('S', [], 0)]), hosts=(0,))
+    wsb = [32, 10, 9, 13]
+    L = 4 if tier == 'quick' else 5
+    for e in entries:
+        for (ws, nl) in ((1, 1), (1, 0), (0, 1), (0, 0)):
+            ins = ws_inputs(e.g, L if len(e.g.ts) <= 2 else L - 1, wsb, 400 if tier == 'quick' else 2500)
+            pipeline.add_jobs(e, ins, verbose=True, ws=ws, nl=nl, tag='o%d%d_' % (ws, nl))
+        # longer random layouts: sentences with random whitespace runs between tokens
+        for s in gengram.sentences(e.g, rng, 6 if tier == 'quick' else 40, max_len=25):
+            lay = []
+            for b in s:
+                for _ in range(rng.choice([0, 0, 1, 2, 3])):
+                    lay.append(rng.choice([32, 10, 9, 13, 11, 12, 10]))
+                lay.append(b)
+            for _ in range(rng.choice([0, 1, 2])):
+                lay.append(rng.choice([32, 10]))
+            pipeline.add_jobs(e, [lay], tag='lay', verbose=bool(rng.getrandbits(1)), ws=1, nl=rng.choice([0, 1, 1]))
+    res, work = prun.run(entries, 'C10', design_L=None, do_product=False, tlc_procs=4 if tier == 'quick' else 8, tlc_workers=4 if tier == 'quick' else 2)
+    domain = {e.gid for e in entries}
+    judge_traces(out, entries, res, {'position'}, domain)
+    out.coverage = base_coverage(res, {
+        'grammars': len(entries), 'positions_compared': res.event_kinds.get('line', 0) + res.event_kinds.get('call', 0),
+        'option_combinations': 4, 'bounds': {'L_all_inputs_over_terms_and_SP_LF_TAB_CR': L},
+        'samples': sample_traces(entries, 3), 'exhaustive': False})
+    out.assumptions = std_assumptions() + ['reference: Driver!SpUpd (newline -> line+1, column 1; any other byte column+1)']
+    return out
+
+
+# ======================================================================================= C08
+def check_C08(tier, seed):
+    out = Outcome()
+    rng = random.Random(seed)
+    L = 5 if tier == 'quick' else 6
+    entries = []
+    for g in catalogue('err'):
+        entries += entries_for(g, hosts=(1,))
+    nrand = 40 if tier == 'quick' else 400
+    for i in range(nrand):
+        g = gengram.random_grammar(rng, 'r%d_%d' % (seed, i), n_nt=rng.choice([2, 3]), n_t=rng.choice([2, 3]), max_rhs=3, error=True)
+        if not g.has_error():
+            continue
+        try:
+            entries.append(pipeline.host_entry(g, 1))
+        except ValueError:
+            pass
+    for e in entries:
+        ins = all_inputs(e.g, L if len(e.g.ts) <= 3 else L - 1, 800 if tier == 'quick' else 5000)
+        pipeline.add_jobs(e, ins, verbose=True)
+        pipeline.add_jobs(e, ins[::5], verbose=False)
+    res, work = prun.run(entries, 'C08', design_L=4 if tier == 'quick' else 5, do_product=True,
+                         tlc_procs=4 if tier == 'quick' else 8, tlc_workers=4 if tier == 'quick' else 2)
+    if res.design_errors:
+        raise Infra('the specification itself fails its invariants: ' + json.dumps(res.design_errors)[:3000])
+    domain = {e.gid for e in entries if e.gid in res.conflicts and res.conflicts[e.gid]['rr'] == 0}
+    judge_traces(out, entries, res, {'recovery', 'verdict', 'extra:msg', 'extra:recto', 'extra:consume', 'extra:shift', 'tree'}, domain)
+    recovered = sum(1 for e in entries for t in e.traces if t['ok'] and any(ev[0] == 'L' and 'Syntax error' in ev[1] for ev in t['events']))
+    out.coverage = base_coverage(res, {
+        'grammars': len(entries), 'grammars_in_domain': len(domain), 'parses_that_recovered_and_succeeded': recovered,
+        'bounds': {'L_all_inputs': L},
+        'samples': sample_traces([e for e in entries if any(any(ev[0] == 'L' and 'Recovering' in ev[1] for ev in t['events']) for t in e.traces)], 3),
+        'exhaustive': False})
+    out.assumptions = std_assumptions() + ['recovery semantics = readme "Error recovery" (pop only while the top state has no action on the error token)']
+    return out
+
+
+# ======================================================================================= C16
+def check_C16(tier, seed):
+    out = Outcome()
+    rng = random.Random(seed)
+    L = 4 if tier == 'quick' else 5
+    entries = []
+    for g in catalogue('lr1')[::2] + catalogue('sr')[:3] + catalogue('err')[:4]:
+        entries += entries_for(g, hosts=(), gen=True) if len(entries) % 2 else entries_for(g, hosts=(0, 1), gen=False) or entries_for(g, hosts=(), gen=True)
+    groups = {}
+    for e in entries:
+        ins = ws_inputs(e.g, L if len(e.g.ts) <= 3 else L - 1, [ord('?'), 32], 250 if tier == 'quick' else 2000)
+        for (v, st) in ((1, 0), (0, 0), (1, 1), (0, 1), (1, 2), (0, 2)):
+            pipeline.add_jobs(e, ins, verbose=bool(v), stream=st, tag='v%ds%d_' % (v, st))
+    res, work = prun.run(entries, 'C16', design_L=None, do_product=False, tlc_procs=4 if tier == 'quick' else 8, tlc_workers=4 if tier == 'quick' else 2)
+    domain = {e.gid for e in entries}
+    judge_traces(out, entries, res, {'step', 'functor', 'report', 'recovery', 'position', 'verdict', 'tree', 'extra', 'threw', 'partial-line'}, domain, per_grammar=1)
+    # outcome independence + stream text: all six runs of one input must agree; ostream text = captured lines
+    ncmp = 0
+    for e in entries:
+        byin = collections.defaultdict(dict)
+        for t in e.traces:
+            byin[tuple(t['bytes'])][(t['verbose'], t['stream'])] = t
+        for b, d in byin.items():
+            ref = d.get((1, 0))
+            if ref is None:
+                continue
+            for key, t in d.items():
+                ncmp += 1
+                if t['ok'] != ref['ok'] or json.dumps(t['tree']) != json.dumps(ref['tree']):
+                    out.violations.append({'summary': {'grammar': e.gid, 'input': bytes(b).decode('latin-1'), 'class': 'outcome depends on verbosity/stream',
+                                                       'verbose,stream': key, 'ok': t['ok'], 'reference_ok': ref['ok']},
+                                           'kind': 'parser', 'gname': e.g.name, 'mode': e.mode, 'gid': e.gid,
+                                           'grammar': {'nts': e.g.nts, 'ts': e.g.ts, 'root': e.g.root, 'rules': e.g.rules, 'tprec': e.g.tprec, 'tassoc': e.g.tassoc},
+                                           'bytes': list(b), 'ws': 1, 'nl': 1, 'verbose': key[0], 'stream': key[1], 'buf': 0})
+            for v in (0, 1):
+                cap, ost = d.get((v, 0)), d.get((v, 2))
+                if cap and ost:
+                    text = ''.join(ev[1] + '\n' for ev in cap['events'] if ev[0] == 'L') + cap.get('partial', '')
+                    if text != ost['stream_text']:
+                        out.violations.append({'summary': {'grammar': e.gid, 'input': bytes(b).decode('latin-1'), 'class': 'std::ostream text differs from the captured lines', 'verbose': v,
+                                                           'ostream': ost['stream_text'][:200], 'captured': text[:200]},
+                                               'kind': 'parser', 'gname': e.g.name, 'mode': e.mode, 'gid': e.gid,
+                                               'grammar': {'nts': e.g.nts, 'ts': e.g.ts, 'root': e.g.root, 'rules': e.g.rules, 'tprec': e.g.tprec, 'tassoc': e.g.tassoc},
+                                               'bytes': list(b), 'ws': 1, 'nl': 1, 'verbose': v, 'stream': 2, 'buf': 0})
+            # the non-verbose lines appear unchanged and in order among the verbose ones
+            cv, cn = d.get((1, 0)), d.get((0, 0))
+            if cv and cn:
+                vl = [ev[1] for ev in cv['events'] if ev[0] == 'L']
+                i = 0
+                for ln in [ev[1] for ev in cn['events'] if ev[0] == 'L']:
+                    while i < len(vl) and vl[i] != ln:
+                        i += 1
+                    if i == len(vl):
+                        out.violations.append({'summary': {'grammar': e.gid, 'input': bytes(b).decode('latin-1'), 'class': 'non-verbose line missing from the verbose stream', 'line': ln},
+                                               'kind': 'parser', 'gname': e.g.name, 'mode': e.mode, 'gid': e.gid,
+                                               'grammar': {'nts': e.g.nts, 'ts': e.g.ts, 'root': e.g.root, 'rules': e.g.rules, 'tprec': e.g.tprec, 'tassoc': e.g.tassoc},
+                                               'bytes': list(b), 'ws': 1, 'nl': 1, 'verbose': 1, 'stream': 0, 'buf': 0})
+                        break
+                    i += 1
+    out.violations = out.violations[:12]
+    out.coverage = base_coverage(res, {
+        'grammars': len(entries), 'runs_compared_across_verbosity_and_stream': ncmp, 'verbose_lines_validated': res.event_kinds.get('line', 0),
+        'bounds': {'L_all_inputs_incl_unknown_byte_and_space': L, 'variants': 'verbose{on,off} x stream{capture, none, std::ostream}'},
+        'samples': sample_traces(entries, 3), 'exhaustive': False})
+    out.assumptions = std_assumptions()
+    return out
+
+
 # ======================================================================================= replay
 def replay(pid, path):
     v = json.load(open(path))
